@@ -3,7 +3,12 @@
 usage: c18_runner.py tasks.json results.json
 Each task: {'init': INIT, 'cmds': [CMD...], 'mode': 'inproc'|'subproc'}
   INIT = {'cfg': {'local': [[key, value]...], 'global': [[key, value]...]},
-          'att': {'local': text|None, 'global': text|None}, 'attrloc': 'xdg'|'home'|'custom'}
+          'att': {'local': text|None, 'global': text|None}, 'attrloc': 'xdg'|'home'|'custom',
+          'kind': 'plain'|'worktree'|'separate'|'submodule'|'bare'|'norepo'   (optional, default 'plain')}
+  kind = the kind of checkout the commands are run in (cwd): a `git init` repository; a linked worktree (`git worktree add`);
+  a `git init --separate-git-dir` checkout; a submodule of a superproject (in these three `.git` is a FILE "gitdir: ...");
+  a bare repository (cwd = the git dir itself); a directory that is no repository at all.  In the last two there is no work
+  tree at cwd, so `git check-attr` / `git diff` are observed from an untouched probe repository (what the GLOBAL settings do).
   CMD  = {'tool': 'diffdriver'|'mergedriver'|'difftool'|'mergetool'|'all', 'enable': bool, 'scope': 'local'|'global', 'sd': bool}
 Result: {'obs': [OBS0, OBS1, ...], 'status': [st1, ...]}  (OBS0 = the initial state as real git reports it)
 
@@ -63,13 +68,72 @@ class Sandbox:
         sys.path.insert(0, self.stubs)
         self.git(['init', '-q', '--template=', self.repo], cwd=b)
         os.chdir(self.repo)
-        nb = {"cells": [], "metadata": {}, "nbformat": 4, "nbformat_minor": 5}
-        json.dump(nb, open('x.ipynb', 'w'))
-        self.git(['add', 'x.ipynb']); self.git(['-c', 'user.name=t', '-c', 'user.email=t@example.org', 'commit', '-q', '-m', 'init'])
-        nb['metadata'] = {'changed': True}
-        json.dump(nb, open('x.ipynb', 'w'))
+        self.commit_nb(self.repo); self.modify_nb(self.repo)
         self.pristine = open(os.path.join(self.repo, '.git', 'config'), 'rb').read()
         self.attrloc = 'xdg'
+        # kind of checkout -> where commands run (work), the repository's config file (cfgpath), directories whose files are
+        # snapshotted (roots), git dirs inside them (objects / index not snapshotted), where routing is observed (routing)
+        self.layouts = {'plain': {'work': self.repo, 'cfgpath': os.path.join(self.repo, '.git', 'config'), 'roots': [self.repo],
+                                  'gitdirs': [os.path.join(self.repo, '.git')], 'routing': self.repo, 'pristine': self.pristine,
+                                  'keep': {self.repo: set(os.listdir(self.repo))}}}
+        self.use('plain')
+
+    NB = {"cells": [], "metadata": {}, "nbformat": 4, "nbformat_minor": 5}
+
+    def commit_nb(self, d):
+        json.dump(self.NB, open(os.path.join(d, 'x.ipynb'), 'w'))
+        self.git(['add', 'x.ipynb'], cwd=d)
+        self.git(['-c', 'user.name=t', '-c', 'user.email=t@example.org', 'commit', '-q', '-m', 'init'], cwd=d)
+
+    def modify_nb(self, d):
+        json.dump(dict(self.NB, metadata={'changed': True}), open(os.path.join(d, 'x.ipynb'), 'w'))
+
+    def probe_repo(self):
+        p = os.path.join(self.base, 'probe')
+        if not os.path.isdir(p):
+            self.git(['init', '-q', '--template=', p], cwd=self.base)
+            self.commit_nb(p); self.modify_nb(p)
+        return p
+
+    def make_kind(self, kind):
+        b = self.base; j = os.path.join
+        if kind == 'worktree':
+            main, wt = j(b, 'wtmain'), j(b, 'wt')
+            self.git(['init', '-q', '--template=', main], cwd=b); self.commit_nb(main)
+            self.git(['worktree', 'add', '-q', '--detach', wt], cwd=main); self.modify_nb(wt)
+            lay = {'work': wt, 'cfgpath': j(main, '.git', 'config'), 'roots': [main, wt], 'gitdirs': [j(main, '.git')], 'routing': wt}
+        elif kind == 'separate':
+            sep, gd = j(b, 'sep'), j(b, 'sepgit')
+            os.makedirs(sep)
+            self.git(['init', '-q', '--template=', '--separate-git-dir', gd, sep], cwd=b); self.commit_nb(sep); self.modify_nb(sep)
+            lay = {'work': sep, 'cfgpath': j(gd, 'config'), 'roots': [sep, gd], 'gitdirs': [gd], 'routing': sep}
+        elif kind == 'submodule':
+            src, sup = j(b, 'subsrc'), j(b, 'super')
+            self.git(['init', '-q', '--template=', src], cwd=b); self.commit_nb(src)
+            self.git(['init', '-q', '--template=', sup], cwd=b)
+            self.git(['-c', 'protocol.file.allow=always', 'submodule', 'add', '-q', src, 'sub'], cwd=sup)
+            sub = j(sup, 'sub'); self.modify_nb(sub)
+            lay = {'work': sub, 'cfgpath': j(sup, '.git', 'modules', 'sub', 'config'), 'roots': [sup], 'gitdirs': [j(sup, '.git')], 'routing': sub}
+        elif kind == 'bare':
+            gd = j(b, 'bare.git')
+            self.git(['init', '-q', '--bare', '--template=', gd], cwd=b)
+            lay = {'work': gd, 'cfgpath': j(gd, 'config'), 'roots': [gd, self.probe_repo()], 'gitdirs': [gd, j(self.probe_repo(), '.git')], 'routing': self.probe_repo()}
+        elif kind == 'norepo':
+            d = j(b, 'norepo'); os.makedirs(d)
+            lay = {'work': d, 'cfgpath': None, 'roots': [d, self.probe_repo()], 'gitdirs': [j(self.probe_repo(), '.git')], 'routing': self.probe_repo()}
+        else:
+            raise RuntimeError('unknown kind of checkout %r' % (kind,))
+        if kind in ('worktree', 'separate', 'submodule'):
+            assert os.path.isfile(j(lay['work'], '.git')), '.git is expected to be a file in a %s checkout' % kind
+        lay['pristine'] = open(lay['cfgpath'], 'rb').read() if lay['cfgpath'] else None
+        lay['keep'] = {r: set(os.listdir(r)) for r in lay['roots'] + [lay['work']]}
+        self.layouts[kind] = lay
+
+    def use(self, kind):
+        if kind not in self.layouts:
+            self.make_kind(kind)
+        self.kind = kind; lay = self.layouts[kind]
+        self.work, self.cfgpath, self.roots, self.gitdirs, self.routing = lay['work'], lay['cfgpath'], lay['roots'], lay['gitdirs'], lay['routing']
 
     def git(self, args, cwd=None, check=True):
         p = subprocess.run(['git'] + args, cwd=cwd, stdout=subprocess.PIPE, stderr=subprocess.PIPE)
@@ -86,11 +150,17 @@ class Sandbox:
         for d in (self.home, self.xdg, os.path.dirname(self.custom)):
             shutil.rmtree(d, ignore_errors=True)
         os.makedirs(self.home); os.makedirs(self.xdg)
-        for f in os.listdir(self.repo):
-            if f not in ('.git', 'x.ipynb'):
-                p = os.path.join(self.repo, f)
-                shutil.rmtree(p) if os.path.isdir(p) else os.unlink(p)
-        open(os.path.join(self.repo, '.git', 'config'), 'wb').write(self.pristine)
+        self.use(init.get('kind', 'plain'))
+        lay = self.layouts[self.kind]
+        for d, keep in lay['keep'].items():
+            for f in os.listdir(d):
+                if f not in keep:
+                    p = os.path.join(d, f)
+                    shutil.rmtree(p) if os.path.isdir(p) and not os.path.islink(p) else os.unlink(p)
+        if self.cfgpath:
+            open(self.cfgpath, 'wb').write(lay['pristine'])
+        elif init['cfg'].get('local'):
+            raise RuntimeError('a %s directory has no repository configuration to put %r in' % (self.kind, init['cfg']['local']))
         self.attrloc = init.get('attrloc', 'xdg')
         if self.attrloc == 'home':
             os.environ.pop('XDG_CONFIG_HOME', None)
@@ -103,8 +173,8 @@ class Sandbox:
         for k, v in glob:
             self.git(['config', '--file', gcfg, k, v])
         for k, v in init['cfg'].get('local', []):
-            self.git(['config', '--file', os.path.join(self.repo, '.git', 'config'), k, v])
-        for sc, path in (('local', os.path.join(self.repo, '.gitattributes')), ('global', self.global_attr_path())):
+            self.git(['config', '--file', self.cfgpath, k, v])
+        for sc, path in (('local', os.path.join(self.work, '.gitattributes')), ('global', self.global_attr_path())):
             t = init['att'].get(sc)
             if t is not None:
                 os.makedirs(os.path.dirname(path), exist_ok=True)
@@ -112,46 +182,43 @@ class Sandbox:
 
     def snapshot(self):
         out = {}
-        for root in (self.home, self.xdg, os.path.dirname(self.custom), self.repo):
+        for root in [self.home, self.xdg, os.path.dirname(self.custom)] + self.roots:
             for dp, dns, fns in os.walk(root):
-                if dp == self.repo and '.git' in dns:
-                    dns.remove('.git')
+                ingit = any(dp == g or dp.startswith(g + os.sep) for g in self.gitdirs)
+                if ingit and 'objects' in dns:
+                    dns.remove('objects')
                 for fn in fns:
+                    if ingit and fn == 'index':
+                        continue
                     p = os.path.join(dp, fn)
                     out[os.path.relpath(p, self.base)] = hashlib.sha1(open(p, 'rb').read()).hexdigest()[:12]
-        gd = os.path.join(self.repo, '.git')
-        for dp, dns, fns in os.walk(gd):
-            for fn in fns:
-                p = os.path.join(dp, fn)
-                rel = os.path.relpath(p, self.base)
-                if rel.startswith('repo/.git/objects') or fn == 'index':
-                    continue
-                out[rel] = hashlib.sha1(open(p, 'rb').read()).hexdigest()[:12]
         return out
 
     def observe(self):
-        p = self.git(['config', '--list', '--show-origin', '-z'], cwd=self.repo, check=False)
+        p = self.git(['config', '--list', '--show-origin', '-z'], cwd=self.work, check=False)
         toks = p.stdout.decode('utf8', 'replace').split('\0')
         cfg = {'local': [], 'global': [], 'other': []}
-        lpath = 'file:.git/config'; gpaths = ('file:' + os.path.join(self.home, '.gitconfig'), 'file:' + os.path.join(self.xdg, 'git', 'config'),
-                                             'file:' + os.path.join(self.home, '.config', 'git', 'config'))
+        lreal = os.path.realpath(self.cfgpath) if self.cfgpath else None
+        gpaths = ('file:' + os.path.join(self.home, '.gitconfig'), 'file:' + os.path.join(self.xdg, 'git', 'config'),
+                  'file:' + os.path.join(self.home, '.config', 'git', 'config'))
         for i in range(0, len(toks) - 1, 2):
             origin, kv = toks[i], toks[i + 1]
             k, _, v = kv.partition('\n')
-            if origin == lpath: cfg['local'].append([k, v])
+            if lreal and origin.startswith('file:') and os.path.realpath(os.path.join(self.work, origin[5:])) == lreal:
+                cfg['local'].append([k, v.replace(self.base, '<BASE>')])
             elif origin in gpaths:
                 if k == 'core.attributesfile' and v == self.custom: v = '<CUSTOM>'
                 cfg['global'].append([k, v])
             else: cfg['other'].append([origin.replace(self.base, '<BASE>'), k, v])
         att = {}
-        for sc, path in (('local', os.path.join(self.repo, '.gitattributes')), ('global', self.global_attr_path())):
+        for sc, path in (('local', os.path.join(self.work, '.gitattributes')), ('global', self.global_attr_path())):
             att[sc] = open(path, 'rb').read().decode('latin-1') if os.path.isfile(path) else None
-        ca = self.git(['check-attr', 'diff', 'merge', '--', 'x.ipynb'], cwd=self.repo, check=False).stdout.decode('utf8', 'replace')
+        ca = self.git(['check-attr', 'diff', 'merge', '--', 'x.ipynb'], cwd=self.routing, check=False).stdout.decode('utf8', 'replace')
         attr = {}
         for ln in ca.splitlines():
             parts = ln.split(': ')
             if len(parts) == 3: attr[parts[1]] = parts[2]
-        d = self.git(['diff', '--no-color', '--', 'x.ipynb'], cwd=self.repo, check=False)
+        d = self.git(['diff', '--no-color', '--', 'x.ipynb'], cwd=self.routing, check=False)
         return {'cfg': cfg, 'att': att, 'check_attr': attr, 'routed_diff': MARK in d.stdout.decode('utf8', 'replace'),
                 'git_list_rc': p.returncode, 'files': self.snapshot()}
 
@@ -190,7 +257,7 @@ def run_subproc(c, sb):
         cmd = [sys.executable, '-m', MODS[c['tool']], 'config'] + argv_of(c)
     env = dict(os.environ)
     env['PYTHONPATH'] = os.pathsep.join([env.get('PYTHONPATH', ''), sb.stubs])
-    p = subprocess.run(cmd, cwd=sb.repo, env=env, stdout=subprocess.PIPE, stderr=subprocess.PIPE)
+    p = subprocess.run(cmd, cwd=sb.work, env=env, stdout=subprocess.PIPE, stderr=subprocess.PIPE)
     if p.returncode == 0: return 'ok'
     err = p.stderr.decode('utf8', 'replace')
     if 'CalledProcessError' in err: return 'raised:CalledProcessError'
@@ -209,9 +276,9 @@ def main():
                 sb.reset(t['init'])
                 obs = [sb.observe()]; status = []
                 for c in t['cmds']:
-                    os.chdir(sb.repo)
+                    os.chdir(sb.work)
                     status.append(run_subproc(c, sb) if t.get('mode') == 'subproc' else run_inproc(c))
-                    os.chdir(sb.repo)
+                    os.chdir(sb.work)
                     obs.append(sb.observe())
                 out.append({'obs': obs, 'status': status})
             except Exception as e:
